@@ -1147,7 +1147,25 @@ func firstLines(s string, n int) string {
 
 // probe compares everything observable with the model: Exists and Get of every key, then every query.
 func probe(x *exec, m *model, layer, lastKind string, logf func(string, ...any)) *violation {
-	for _, k := range x.keys {
+	// Keys that sit in the read cache are probed first: a cache hit never evicts anything, whereas the miss of
+	// another key would insert that key and could evict (and thereby hide) a stale entry before it is looked at.
+	order := x.keys
+	if ca := x.iface.VerifCache(); ca != nil {
+		cached := map[string]bool{}
+		for _, ck := range ca.Keys(false) {
+			cached[fmt.Sprint(ck)] = true
+		}
+		var first, rest []string
+		for _, k := range x.keys {
+			if cached[x.full(k)] {
+				first = append(first, k)
+			} else {
+				rest = append(rest, k)
+			}
+		}
+		order = append(first, rest...)
+	}
+	for _, k := range order {
 		want := modelGet(m, k)
 		var ex bool
 		var exErr error
@@ -1540,7 +1558,7 @@ func main() {
 
 		c.Rule("breadth-first search over histories of database.Interface operations on the real code, per configuration backend {hashmap,bbolt,fstree; thorough: badger} x shadow-delete {off,on} x cache {none, read cache size 2, delayed write cache size 2 (hashmap, bbolt)} and per initial storage content (empty, one live, one shadow-deleted, one expired record, one with a relative expiry); " +
 			"alphabet per configuration: Get, Put (typed struct / wrapped JSON twins, 2 contents), PutNew (record with stale metadata), Resave (Get then Put of the same object), Delete, SetAbsoluteExpiry (past, +10 s), SetRelativateExpiry(10), PutMany (2 batches of two records, one deleted), Purge (2 queries), 10 s / 20 s pass on the manual clock, MaintainRecordStates (threshold now / now-15 s), Maintain, FlushCache and Flush = one DelayedCacheWriter run ended by its context (delayed writes only), Put of an already deleted record over 4 keys sharing prefixes and a path separator; " +
-			"every history runs on a wiped database through a fresh Interface and on a map[string]entry model; after the last step Exists+Get of all 4 keys and 19 queries (5 key prefixes; all 18 operators; and/or/not nested to depth 2) are compared; states de-duplicated on (model, raw storage dump, ARC cache lists and entries, delayed write set); " +
+			"every history runs on a wiped database through a fresh Interface and on a map[string]entry model; after the last step Exists+Get of all 4 keys (cached keys first, so that the probe's own cache misses cannot evict a stale entry unseen) and 19 queries (5 key prefixes; all 18 operators; and/or/not nested to depth 2) are compared; states de-duplicated on (model, raw storage dump, ARC cache lists and entries, delayed write set); " +
 			"non-trivial = distinct reached states holding at least two records or at least one deleted/expired record. "+
 			"Plus two scenario families: bulk (N records in mixed states, N around bbolt's purge batch size 1000 and up to several B+tree pages, then Purge by prefix / by condition or MaintainRecordStates, compared with the model) and storage-error (a query that meets an unreadable raw record must end its stream and report through Iterator.Err())")
 		c.Assume("metadata semantics are those documented in record/meta.go: a save stamps Modified (and Created if unset) and recomputes Expires from a relative TTL; a TTL set through Interface.SetRelativateExpiry therefore takes effect at the next save (not asserted otherwise); a record is expired when now > Expires")
